@@ -65,7 +65,7 @@ def parse_stream(data):
 
 
 # ------------------------------------------------------------------ child process
-def _child(reactor, threads, k_msgs, sizes, seed, timeout, cap=0):
+def _child(reactor, threads, k_msgs, sizes, seed, timeout, cap=0, loop_pusher=0):
     repo = os.environ.get("VERIF_REPO", "/repo")
     sys.path.insert(0, repo)
     import logging
@@ -135,6 +135,28 @@ def _child(reactor, threads, k_msgs, sizes, seed, timeout, cap=0):
 
     def pusher(t):
         start.wait()
+        if loop_pusher and t == 1:
+            # pusher 1 pushes from the reactor's own loop thread (as a response callback that sends a request does),
+            # one message per loop iteration so that its pushes fall between the steps of whatever the reactor is
+            # doing for the application threads' pushes; the others are application threads
+            finished = threading.Event()
+
+            def push_next(i):
+                conn.push(msgs[1][i])
+                if i + 1 < len(msgs[1]):
+                    later(push_next, i + 1)
+                else:
+                    finished.set()
+            if reactor == "asyncio":
+                loop = AsyncioConnection._loop
+                later = lambda f, *a: loop.call_soon(f, *a)          # noqa: E731
+                loop.call_soon_threadsafe(push_next, 0)
+            else:
+                from twisted.internet import reactor as _tw
+                later = lambda f, *a: _tw.callLater(0, f, *a)        # noqa: E731
+                _tw.callFromThread(push_next, 0)
+            finished.wait(timeout)
+            return
         for msg in msgs[t]:
             conn.push(msg)
     ths = [threading.Thread(target=pusher, args=(t,)) for t in range(1, threads + 1)]
@@ -150,11 +172,11 @@ def _child(reactor, threads, k_msgs, sizes, seed, timeout, cap=0):
     os._exit(0)
 
 
-def run_reactor(reactor, threads, k_msgs, sizes, seed, timeout=20, cap=0):
+def run_reactor(reactor, threads, k_msgs, sizes, seed, timeout=20, cap=0, loop_pusher=0):
     """Run one real execution in a subprocess; returns the event list (or raises RuntimeError)."""
     here = os.path.dirname(os.path.dirname(os.path.dirname(os.path.abspath(__file__))))
     code = ("import sys; sys.path.insert(0, %r); from harness.replay import pushqueue as p; "
-            "p._child(%r, %d, %d, %r, %d, %d, %d)" % (here, reactor, threads, k_msgs, sizes, seed, timeout, cap))
+            "p._child(%r, %d, %d, %r, %d, %d, %d, %d)" % (here, reactor, threads, k_msgs, sizes, seed, timeout, cap, loop_pusher))
     p = subprocess.run([sys.executable, "-c", code], stdout=subprocess.PIPE, stderr=subprocess.PIPE, timeout=timeout + 60,
                        text=True)
     line = p.stdout.strip().splitlines()[-1] if p.stdout.strip() else ""
